@@ -206,3 +206,37 @@ def run(ck):
                 break
         ok = ok and partner_lock_local(dp, dp.call_args(cl[0])[0], dp.params[0]['d'])
     ck.ob('C25.close', 'C25.close/partner-closed', ok, dp.loc(), 'detach_partner closes the partner when it is AwaitingIdentity or Bridged')
+
+    # ---- one spelling of a key: what a connector looks up is what gets un-listed -----------------------------------------------------
+    from sa.canon import canon as _canon
+    fr_ = P.fn(R + 'find_registered')
+    ck.touch(fr_)
+    finds = [i for i in fr_.walk() if (fr_.nodes[i].get('callee') or '').endswith('::find') and
+             fr_.nodes[fr_.strip(fr_.receiver(i))].get('m', '').endswith('RelayServer::registered_')]
+    okf = len(finds) == 1 and _canon(fr_, fr_.call_args(finds[0])[0]) == ('v', fr_.params[0]['n'])
+    ck.ob('C25.claim', 'C25.claim/lookup-key-verbatim', okf, fr_.loc(finds[0]) if finds else fr_.loc(),
+          'find_registered looks registered_ up under exactly the text it was given (the caller un-lists the target under that same text)')
+    hc_ = P.fn(R + 'handle_connect')
+    ck.touch(hc_)
+    looks = [i for i in hc_.walk() if hc_.nodes[i].get('callee') == R + 'find_registered']
+    erases_ = [i for i in hc_.walk() if (hc_.nodes[i].get('callee') or '').endswith('::erase') and
+               hc_.nodes[hc_.strip(hc_.receiver(i))].get('m', '').endswith('RelayServer::registered_')]
+    oke = len(looks) == 1 and len(erases_) >= 1 and all(_canon(hc_, hc_.call_args(e)[0]) == _canon(hc_, hc_.call_args(looks[0])[0]) for e in erases_)
+    ck.ob('C25.claim', 'C25.claim/unlist-same-key', oke, hc_.loc(erases_[0]) if erases_ else hc_.loc(),
+          'handle_connect removes the claimed registration under the very key it looked it up with')
+
+    # ---- the bridged test is made per received chunk: a bridge can come into being in the middle of one read burst --------------------
+    hr_ = P.fn(R + 'handle_read')
+    ck.touch(hr_)
+    lps_ = [i for i in hr_.walk() if hr_.nodes[i]['k'] in ('WhileStmt', 'ForStmt', 'DoStmt')]
+    fwd_ = [i for i in hr_.walk() if hr_.nodes[i].get('callee') == R + 'forward_to_partner']
+    okb = bool(fwd_) and bool(lps_)
+    why_ = ''
+    for c_ in fwd_:
+        guards_ = [a for a in hr_.ancestors(c_) if hr_.nodes[a]['k'] == 'IfStmt' and hr_.is_in(c_, hr_.nodes[a]['then'])]
+        in_loop = [g for g in guards_ if any(hr_.is_in(g, l_) for l_ in lps_)]
+        direct = [g for g in in_loop if any(hr_.nodes[j]['k'] == 'MemberExpr' and hr_.nodes[j].get('m', '').endswith('ClientSession::state') for j in hr_.walk(hr_.nodes[g]['cond']))]
+        if not direct:
+            okb, why_ = False, 'the Bridged test guarding forward_to_partner does not read session->state inside the receive loop'
+    ck.ob('C25.forward', 'C25.forward/bridged-tested-per-chunk', okb, hr_.loc(fwd_[0]) if fwd_ else hr_.loc(),
+          'handle_read decides relay-or-parse from session->state for every received chunk%s' % ((' — ' + why_) if why_ else ''))
